@@ -304,8 +304,6 @@ void OrderedSimplex::fireParameterChanged(const ParameterList& pl)
 
 void OrderedSimplex::setFrequencies(const std::vector<double>& vValues)
 {
-  vValues_ = vValues;
-
   auto dim = vValues.size();
   Vdouble vprob(dim);
 
@@ -316,4 +314,5 @@ void OrderedSimplex::setFrequencies(const std::vector<double>& vValues)
 
   vprob[dim - 1] = static_cast<double>(dim) * vValues[dim - 1];
   Simplex::setFrequencies(vprob);
+  vValues_ = vValues;
 }
